@@ -1,0 +1,909 @@
+/*
+ * libpathrs: safe path resolution on Linux
+ *
+ * Verification hooks. This module only exists when the crate is built with
+ * the `_verif_hooks` feature; nothing in the normal build refers to it.
+ *
+ * It provides
+ *  - a thread-local recorder of every system call made through the wrappers
+ *    in `syscalls.rs` (the raw arguments as the kernel sees them and the
+ *    answer), sitting *below* the wrappers so that their own logic (flag
+ *    forcing, argument checks) stays visible,
+ *  - an interposer that can fail a call with a chosen errno or run arbitrary
+ *    code (an "attacker" step) immediately before a call,
+ *  - accessors for crate-private pure helpers and configuration knobs that
+ *    an external harness cannot otherwise reach.
+ */
+
+#![allow(unsafe_code)]
+#![allow(missing_docs)]
+#![allow(missing_debug_implementations)]
+#![allow(clippy::all)]
+
+use std::{
+    cell::RefCell,
+    os::unix::io::{AsFd, AsRawFd, OwnedFd, RawFd},
+    sync::atomic::{AtomicBool, Ordering},
+};
+
+/// One recorded system call: its kind, descriptor arguments, byte-string
+/// arguments and numeric arguments, in the order of the C prototype.
+#[derive(Clone, Debug, PartialEq, Eq)]
+pub struct Call {
+    pub kind: &'static str,
+    pub fds: Vec<i32>,
+    pub strs: Vec<Vec<u8>>,
+    pub nums: Vec<u64>,
+}
+
+/// The answer to a recorded call.
+#[derive(Clone, Debug, PartialEq, Eq)]
+pub enum Resp {
+    Fd(i32),
+    Unit,
+    Bytes(Vec<u8>),
+    Nums(Vec<u64>),
+    End,
+    Err(i32),
+}
+
+/// What the interposer wants done with a call.
+#[derive(Clone, Copy, Debug, PartialEq, Eq)]
+pub enum Action {
+    Proceed,
+    Fail(i32),
+}
+
+/// Callbacks run around every recorded call. Recording is suspended while a
+/// callback runs, so a callback may use the filesystem freely.
+pub trait Interposer {
+    fn pre(&mut self, _idx: usize, _call: &Call) -> Action {
+        Action::Proceed
+    }
+    fn post(&mut self, _idx: usize, _call: &Call, _resp: &Resp) {}
+}
+
+struct State {
+    log: Vec<(Call, Resp)>,
+    interposer: Option<Box<dyn Interposer>>,
+}
+
+thread_local! {
+    static STATE: RefCell<Option<State>> = const { RefCell::new(None) };
+    static SUSPENDED: RefCell<bool> = const { RefCell::new(false) };
+}
+
+/// When set, every `openat2(2)` made through the wrapper is answered with
+/// `ENOSYS` without entering the kernel: the process then behaves as on a
+/// kernel without `openat2`. Must be set before the first use of the library.
+pub static FORCE_OPENAT2_ENOSYS: AtomicBool = AtomicBool::new(false);
+
+/// Start recording on this thread.
+pub fn start(interposer: Option<Box<dyn Interposer>>) {
+    STATE.with(|s| {
+        *s.borrow_mut() = Some(State {
+            log: Vec::new(),
+            interposer,
+        })
+    });
+}
+
+/// Stop recording on this thread and return the transcript.
+pub fn finish() -> Vec<(Call, Resp)> {
+    STATE
+        .with(|s| s.borrow_mut().take())
+        .map(|s| s.log)
+        .unwrap_or_default()
+}
+
+/// Is a recorder installed (and not suspended) on this thread?
+pub fn active() -> bool {
+    let suspended = SUSPENDED.try_with(|s| *s.borrow()).unwrap_or(true);
+    !suspended
+        && STATE
+            .try_with(|s| s.try_borrow().map(|s| s.is_some()).unwrap_or(false))
+            .unwrap_or(false)
+}
+
+fn with_suspended<T>(f: impl FnOnce() -> T) -> T {
+    SUSPENDED.with(|s| *s.borrow_mut() = true);
+    let r = f();
+    SUSPENDED.with(|s| *s.borrow_mut() = false);
+    r
+}
+
+/// Ask the interposer what to do with `call` (index = position in the log).
+pub fn pre(call: &Call) -> Action {
+    if !active() {
+        return Action::Proceed;
+    }
+    let (idx, mut ip) = STATE.with(|s| {
+        let mut s = s.borrow_mut();
+        let st = s.as_mut().expect("active");
+        (st.log.len(), st.interposer.take())
+    });
+    let action = match ip.as_mut() {
+        Some(ip) => with_suspended(|| ip.pre(idx, call)),
+        None => Action::Proceed,
+    };
+    STATE.with(|s| {
+        if let Some(st) = s.borrow_mut().as_mut() {
+            st.interposer = ip;
+        }
+    });
+    action
+}
+
+/// Append a call and its answer to the transcript.
+pub fn post(call: Call, resp: Resp) {
+    if !active() {
+        return;
+    }
+    let (idx, mut ip) = STATE.with(|s| {
+        let mut s = s.borrow_mut();
+        let st = s.as_mut().expect("active");
+        (st.log.len(), st.interposer.take())
+    });
+    if let Some(ip) = ip.as_mut() {
+        with_suspended(|| ip.post(idx, &call, &resp));
+    }
+    STATE.with(|s| {
+        if let Some(st) = s.borrow_mut().as_mut() {
+            st.interposer = ip;
+            st.log.push((call, resp));
+        }
+    });
+}
+
+fn fdnum<Fd: AsFd>(fd: &Fd) -> i32 {
+    fd.as_fd().as_raw_fd()
+}
+
+fn errno_of(e: rustix::io::Errno) -> i32 {
+    e.raw_os_error()
+}
+
+fn mkerr(e: i32) -> rustix::io::Errno {
+    rustix::io::Errno::from_raw_os_error(e)
+}
+
+fn run<T>(
+    call: Call,
+    real: impl FnOnce() -> rustix::io::Result<T>,
+    to_resp: impl FnOnce(&T) -> Resp,
+) -> rustix::io::Result<T> {
+    if !active() {
+        return real();
+    }
+    match pre(&call) {
+        Action::Fail(e) => {
+            post(call, Resp::Err(e));
+            Err(mkerr(e))
+        }
+        Action::Proceed => {
+            let res = real();
+            let resp = match &res {
+                Ok(v) => to_resp(v),
+                Err(e) => Resp::Err(errno_of(*e)),
+            };
+            post(call, resp);
+            res
+        }
+    }
+}
+
+fn pbytes(p: &std::path::Path) -> Vec<u8> {
+    use std::os::unix::ffi::OsStrExt;
+    p.as_os_str().as_bytes().to_vec()
+}
+
+/// Stand-in for `rustix::fs` inside the syscall wrappers.
+pub mod shim_fs {
+    use super::*;
+    use rustix::fs as real;
+    pub use rustix::fs::{major, minor, CWD};
+    use rustix::fs::{
+        Access, AtFlags, Dev, FileType, Mode, OFlags, RenameFlags, Stat, StatFs, Statx, StatxFlags,
+    };
+    use std::{mem::MaybeUninit, path::Path};
+
+    pub fn openat<Fd: AsFd>(
+        dirfd: Fd,
+        path: &Path,
+        oflags: OFlags,
+        mode: Mode,
+    ) -> rustix::io::Result<OwnedFd> {
+        let call = Call {
+            kind: "openat",
+            fds: vec![fdnum(&dirfd)],
+            strs: vec![pbytes(path)],
+            nums: vec![oflags.bits() as u64, mode.bits() as u64],
+        };
+        run(
+            call,
+            || real::openat(&dirfd, path, oflags, mode),
+            |fd| Resp::Fd(fd.as_raw_fd()),
+        )
+    }
+
+    pub fn readlinkat_raw<'a, Fd: AsFd>(
+        dirfd: Fd,
+        path: &Path,
+        buf: &'a mut [MaybeUninit<u8>],
+    ) -> rustix::io::Result<(&'a mut [u8], &'a mut [MaybeUninit<u8>])> {
+        let call = Call {
+            kind: "readlinkat",
+            fds: vec![fdnum(&dirfd)],
+            strs: vec![pbytes(path)],
+            nums: vec![buf.len() as u64],
+        };
+        run(
+            call,
+            || real::readlinkat_raw(&dirfd, path, buf),
+            |(target, _)| Resp::Bytes(target.to_vec()),
+        )
+    }
+
+    pub fn mkdirat<Fd: AsFd>(dirfd: Fd, path: &Path, mode: Mode) -> rustix::io::Result<()> {
+        let call = Call {
+            kind: "mkdirat",
+            fds: vec![fdnum(&dirfd)],
+            strs: vec![pbytes(path)],
+            nums: vec![mode.bits() as u64],
+        };
+        run(call, || real::mkdirat(&dirfd, path, mode), |_| Resp::Unit)
+    }
+
+    pub fn mknodat<Fd: AsFd>(
+        dirfd: Fd,
+        path: &Path,
+        file_type: FileType,
+        mode: Mode,
+        dev: Dev,
+    ) -> rustix::io::Result<()> {
+        let call = Call {
+            kind: "mknodat",
+            fds: vec![fdnum(&dirfd)],
+            strs: vec![pbytes(path)],
+            nums: vec![
+                (file_type.as_raw_mode() | mode.as_raw_mode()) as u64,
+                dev as u64,
+            ],
+        };
+        run(
+            call,
+            || real::mknodat(&dirfd, path, file_type, mode, dev),
+            |_| Resp::Unit,
+        )
+    }
+
+    pub fn unlinkat<Fd: AsFd>(dirfd: Fd, path: &Path, flags: AtFlags) -> rustix::io::Result<()> {
+        let call = Call {
+            kind: "unlinkat",
+            fds: vec![fdnum(&dirfd)],
+            strs: vec![pbytes(path)],
+            nums: vec![flags.bits() as u64],
+        };
+        run(call, || real::unlinkat(&dirfd, path, flags), |_| Resp::Unit)
+    }
+
+    pub fn linkat<Fd1: AsFd, Fd2: AsFd>(
+        old_dirfd: Fd1,
+        old_path: &Path,
+        new_dirfd: Fd2,
+        new_path: &Path,
+        flags: AtFlags,
+    ) -> rustix::io::Result<()> {
+        let call = Call {
+            kind: "linkat",
+            fds: vec![fdnum(&old_dirfd), fdnum(&new_dirfd)],
+            strs: vec![pbytes(old_path), pbytes(new_path)],
+            nums: vec![flags.bits() as u64],
+        };
+        run(
+            call,
+            || real::linkat(&old_dirfd, old_path, &new_dirfd, new_path, flags),
+            |_| Resp::Unit,
+        )
+    }
+
+    pub fn symlinkat<Fd: AsFd>(target: &Path, dirfd: Fd, path: &Path) -> rustix::io::Result<()> {
+        let call = Call {
+            kind: "symlinkat",
+            fds: vec![fdnum(&dirfd)],
+            strs: vec![pbytes(target), pbytes(path)],
+            nums: vec![],
+        };
+        run(
+            call,
+            || real::symlinkat(target, &dirfd, path),
+            |_| Resp::Unit,
+        )
+    }
+
+    pub fn renameat<Fd1: AsFd, Fd2: AsFd>(
+        old_dirfd: Fd1,
+        old_path: &Path,
+        new_dirfd: Fd2,
+        new_path: &Path,
+    ) -> rustix::io::Result<()> {
+        let call = Call {
+            kind: "renameat",
+            fds: vec![fdnum(&old_dirfd), fdnum(&new_dirfd)],
+            strs: vec![pbytes(old_path), pbytes(new_path)],
+            nums: vec![],
+        };
+        run(
+            call,
+            || real::renameat(&old_dirfd, old_path, &new_dirfd, new_path),
+            |_| Resp::Unit,
+        )
+    }
+
+    pub fn renameat_with<Fd1: AsFd, Fd2: AsFd>(
+        old_dirfd: Fd1,
+        old_path: &Path,
+        new_dirfd: Fd2,
+        new_path: &Path,
+        flags: RenameFlags,
+    ) -> rustix::io::Result<()> {
+        let call = Call {
+            kind: "renameat2",
+            fds: vec![fdnum(&old_dirfd), fdnum(&new_dirfd)],
+            strs: vec![pbytes(old_path), pbytes(new_path)],
+            nums: vec![flags.bits() as u64],
+        };
+        run(
+            call,
+            || real::renameat_with(&old_dirfd, old_path, &new_dirfd, new_path, flags),
+            |_| Resp::Unit,
+        )
+    }
+
+    pub fn fstatfs<Fd: AsFd>(fd: Fd) -> rustix::io::Result<StatFs> {
+        let call = Call {
+            kind: "fstatfs",
+            fds: vec![fdnum(&fd)],
+            strs: vec![],
+            nums: vec![],
+        };
+        run(
+            call,
+            || real::fstatfs(&fd),
+            |st| Resp::Nums(vec![st.f_type as u64]),
+        )
+    }
+
+    pub fn statat<Fd: AsFd>(dirfd: Fd, path: &Path, flags: AtFlags) -> rustix::io::Result<Stat> {
+        let call = Call {
+            kind: "fstatat",
+            fds: vec![fdnum(&dirfd)],
+            strs: vec![pbytes(path)],
+            nums: vec![flags.bits() as u64],
+        };
+        run(
+            call,
+            || real::statat(&dirfd, path, flags),
+            |st| {
+                Resp::Nums(vec![
+                    st.st_mode as u64,
+                    st.st_uid as u64,
+                    st.st_ino as u64,
+                    st.st_dev as u64,
+                ])
+            },
+        )
+    }
+
+    pub fn statx<Fd: AsFd>(
+        dirfd: Fd,
+        path: &Path,
+        flags: AtFlags,
+        mask: StatxFlags,
+    ) -> rustix::io::Result<Statx> {
+        let call = Call {
+            kind: "statx",
+            fds: vec![fdnum(&dirfd)],
+            strs: vec![pbytes(path)],
+            nums: vec![flags.bits() as u64, mask.bits() as u64],
+        };
+        run(
+            call,
+            || real::statx(&dirfd, path, flags, mask),
+            |stx| Resp::Nums(vec![stx.stx_mask as u64, stx.stx_mnt_id]),
+        )
+    }
+
+    pub fn accessat<Fd: AsFd>(
+        dirfd: Fd,
+        path: &str,
+        access: Access,
+        flags: AtFlags,
+    ) -> rustix::io::Result<()> {
+        let call = Call {
+            kind: "accessat",
+            fds: vec![fdnum(&dirfd)],
+            strs: vec![path.as_bytes().to_vec()],
+            nums: vec![access.bits() as u64, flags.bits() as u64],
+        };
+        run(
+            call,
+            || real::accessat(&dirfd, path, access, flags),
+            |_| Resp::Unit,
+        )
+    }
+}
+
+/// Stand-in for `rustix::mount` inside the syscall wrappers.
+pub mod shim_mount {
+    use super::*;
+    use rustix::mount as real;
+    use rustix::mount::{FsMountFlags, FsOpenFlags, MountAttrFlags, OpenTreeFlags};
+    use std::path::Path;
+
+    pub fn fsopen(fstype: &str, flags: FsOpenFlags) -> rustix::io::Result<OwnedFd> {
+        let call = Call {
+            kind: "fsopen",
+            fds: vec![],
+            strs: vec![fstype.as_bytes().to_vec()],
+            nums: vec![flags.bits() as u64],
+        };
+        run(
+            call,
+            || real::fsopen(fstype, flags),
+            |fd| Resp::Fd(fd.as_raw_fd()),
+        )
+    }
+
+    pub fn fsconfig_set_string<Fd: AsFd>(sfd: Fd, key: &str, value: &str) -> rustix::io::Result<()> {
+        let call = Call {
+            kind: "fsconfig_set_string",
+            fds: vec![fdnum(&sfd)],
+            strs: vec![key.as_bytes().to_vec(), value.as_bytes().to_vec()],
+            nums: vec![],
+        };
+        run(
+            call,
+            || real::fsconfig_set_string(sfd.as_fd(), key, value),
+            |_| Resp::Unit,
+        )
+    }
+
+    pub fn fsconfig_create<Fd: AsFd>(sfd: Fd) -> rustix::io::Result<()> {
+        let call = Call {
+            kind: "fsconfig_create",
+            fds: vec![fdnum(&sfd)],
+            strs: vec![],
+            nums: vec![],
+        };
+        run(call, || real::fsconfig_create(sfd.as_fd()), |_| Resp::Unit)
+    }
+
+    pub fn fsmount<Fd: AsFd>(
+        sfd: Fd,
+        flags: FsMountFlags,
+        attrs: MountAttrFlags,
+    ) -> rustix::io::Result<OwnedFd> {
+        let call = Call {
+            kind: "fsmount",
+            fds: vec![fdnum(&sfd)],
+            strs: vec![],
+            nums: vec![flags.bits() as u64, attrs.bits() as u64],
+        };
+        run(
+            call,
+            || real::fsmount(sfd.as_fd(), flags, attrs),
+            |fd| Resp::Fd(fd.as_raw_fd()),
+        )
+    }
+
+    pub fn open_tree<Fd: AsFd>(
+        dirfd: Fd,
+        path: &Path,
+        flags: OpenTreeFlags,
+    ) -> rustix::io::Result<OwnedFd> {
+        let call = Call {
+            kind: "open_tree",
+            fds: vec![fdnum(&dirfd)],
+            strs: vec![pbytes(path)],
+            nums: vec![flags.bits() as u64],
+        };
+        run(
+            call,
+            || real::open_tree(dirfd.as_fd(), path, flags),
+            |fd| Resp::Fd(fd.as_raw_fd()),
+        )
+    }
+}
+
+/// Stand-in for `rustix::thread` in `syscalls::gettid`.
+pub mod shim_thread {
+    use super::*;
+    pub fn gettid() -> rustix::thread::Pid {
+        let tid = rustix::thread::gettid();
+        if active() {
+            let call = Call {
+                kind: "gettid",
+                fds: vec![],
+                strs: vec![],
+                nums: vec![],
+            };
+            let _ = pre(&call);
+            post(
+                call,
+                Resp::Nums(vec![rustix::process::Pid::as_raw(Some(tid)) as u64]),
+            );
+        }
+        tid
+    }
+}
+
+/// Stand-in for `rustix::process` in `syscalls::geteuid`.
+pub mod shim_process {
+    use super::*;
+    pub use rustix::process::{Pid, RawPid, RawUid};
+    pub fn geteuid() -> rustix::process::Uid {
+        let uid = rustix::process::geteuid();
+        if active() {
+            let call = Call {
+                kind: "geteuid",
+                fds: vec![],
+                strs: vec![],
+                nums: vec![],
+            };
+            let _ = pre(&call);
+            post(call, Resp::Nums(vec![uid.as_raw() as u64]));
+        }
+        uid
+    }
+}
+
+/// Stand-in for `libc` in `syscalls::openat2` (the only raw syscall).
+pub mod shim_libc {
+    use super::*;
+    pub use libc::*;
+    use std::ffi::CStr;
+
+    /// Same shape as the call site: `syscall(SYS_openat2, dirfd, path, how, size)`.
+    pub unsafe fn syscall(
+        num: libc::c_long,
+        dirfd: RawFd,
+        path: *const libc::c_char,
+        how: *const crate::syscalls::OpenHow,
+        size: usize,
+    ) -> libc::c_long {
+        let how_ref = unsafe { &*how };
+        let call = Call {
+            kind: "openat2",
+            fds: vec![dirfd],
+            strs: vec![unsafe { CStr::from_ptr(path) }.to_bytes().to_vec()],
+            nums: vec![how_ref.flags, how_ref.mode, how_ref.resolve, size as u64],
+        };
+        let forced = FORCE_OPENAT2_ENOSYS.load(Ordering::Relaxed);
+        let action = if forced {
+            let _ = pre(&call);
+            Action::Fail(libc::ENOSYS)
+        } else {
+            pre(&call)
+        };
+        match action {
+            Action::Fail(e) => {
+                post(call, Resp::Err(e));
+                unsafe { *libc::__errno_location() = e };
+                -1
+            }
+            Action::Proceed => {
+                let ret = unsafe { libc::syscall(num, dirfd, path, how, size) };
+                let err = unsafe { *libc::__errno_location() };
+                let resp = if ret >= 0 {
+                    Resp::Fd(ret as i32)
+                } else {
+                    Resp::Err(err)
+                };
+                post(call, resp);
+                unsafe { *libc::__errno_location() = err };
+                ret
+            }
+        }
+    }
+}
+
+/// Stand-in for `rustix::fs::Dir` in `utils::dir::remove_all`.
+pub struct ShimDir {
+    inner: rustix::fs::Dir,
+    fd: i32,
+}
+
+impl ShimDir {
+    pub fn read_from<Fd: AsFd>(fd: Fd) -> rustix::io::Result<Self> {
+        let raw = fdnum(&fd);
+        let call = Call {
+            kind: "dir_open",
+            fds: vec![raw],
+            strs: vec![],
+            nums: vec![],
+        };
+        run(
+            call,
+            || rustix::fs::Dir::read_from(&fd),
+            |_| Resp::Unit,
+        )
+        .map(|inner| ShimDir { inner, fd: raw })
+    }
+}
+
+impl Iterator for ShimDir {
+    type Item = rustix::io::Result<rustix::fs::DirEntry>;
+
+    fn next(&mut self) -> Option<Self::Item> {
+        let call = Call {
+            kind: "dir_next",
+            fds: vec![self.fd],
+            strs: vec![],
+            nums: vec![],
+        };
+        if !active() {
+            return self.inner.next();
+        }
+        match pre(&call) {
+            Action::Fail(e) => {
+                post(call, Resp::Err(e));
+                Some(Err(mkerr(e)))
+            }
+            Action::Proceed => {
+                let item = self.inner.next();
+                let resp = match &item {
+                    None => Resp::End,
+                    Some(Ok(entry)) => Resp::Bytes(entry.file_name().to_bytes().to_vec()),
+                    Some(Err(e)) => Resp::Err(errno_of(*e)),
+                };
+                post(call, resp);
+                item
+            }
+        }
+    }
+}
+
+// ---------------------------------------------------------------------------
+// Access to crate-private configuration and pure helpers.
+// ---------------------------------------------------------------------------
+
+use crate::{
+    error::ErrorKind,
+    procfs::ProcfsHandle,
+    resolvers::{opath::SymlinkStack, procfs::ProcfsResolver},
+    utils::{self, PathIterExt},
+};
+use std::{
+    ffi::OsStr,
+    os::unix::ffi::OsStrExt,
+    path::{Path, PathBuf},
+    rc::Rc,
+};
+
+/// Make a procfs handle use the emulated (restricted O_PATH) resolver.
+pub fn procfs_set_emulated(handle: &mut ProcfsHandle, emulated: bool) {
+    handle.resolver = if emulated {
+        ProcfsResolver::RestrictedOpath
+    } else {
+        ProcfsResolver::Openat2
+    };
+}
+
+pub fn procfs_new_fsopen(subset: bool) -> Result<ProcfsHandle, crate::error::Error> {
+    ProcfsHandle::new_fsopen(subset)
+}
+
+pub fn procfs_new_open_tree(recursive: bool) -> Result<ProcfsHandle, crate::error::Error> {
+    use rustix::mount::OpenTreeFlags;
+    ProcfsHandle::new_open_tree(if recursive {
+        OpenTreeFlags::AT_RECURSIVE
+    } else {
+        OpenTreeFlags::empty()
+    })
+}
+
+pub fn procfs_new_unsafe_open() -> Result<ProcfsHandle, crate::error::Error> {
+    ProcfsHandle::new_unsafe_open()
+}
+
+pub fn procfs_new_unmasked() -> Result<ProcfsHandle, crate::error::Error> {
+    ProcfsHandle::new_unmasked()
+}
+
+/// (root fd number, mount id, is_subset, uses the emulated resolver) of a handle.
+pub fn procfs_describe(handle: &ProcfsHandle) -> (i32, Option<u64>, bool, bool) {
+    let (fd, mnt_id, is_subset) = handle.verif_describe();
+    (
+        fd,
+        mnt_id,
+        is_subset,
+        handle.resolver == ProcfsResolver::RestrictedOpath,
+    )
+}
+
+/// The process-global procfs handle used by the resolvers.
+pub fn global_procfs() -> &'static ProcfsHandle {
+    &crate::procfs::GLOBAL_PROCFS_HANDLE
+}
+
+pub fn openat2_is_supported() -> bool {
+    *crate::syscalls::OPENAT2_IS_SUPPORTED
+}
+
+fn p(b: &[u8]) -> &Path {
+    Path::new(OsStr::from_bytes(b))
+}
+
+pub fn raw_components(path: &[u8]) -> Vec<Vec<u8>> {
+    p(path)
+        .raw_components()
+        .map(|c| c.as_bytes().to_vec())
+        .collect()
+}
+
+pub fn raw_components_rev(path: &[u8]) -> Vec<Vec<u8>> {
+    p(path)
+        .raw_components()
+        .rev()
+        .map(|c| c.as_bytes().to_vec())
+        .collect()
+}
+
+pub fn partial_ancestors(path: &[u8]) -> Vec<(Vec<u8>, Option<Vec<u8>>)> {
+    p(path)
+        .partial_ancestors()
+        .map(|(a, r)| (pbytes(a), r.map(pbytes)))
+        .collect()
+}
+
+pub fn path_split(path: &[u8]) -> Result<(Vec<u8>, Option<Vec<u8>>), ErrorKind> {
+    utils::path_split(p(path))
+        .map(|(d, b)| (pbytes(d), b.map(pbytes)))
+        .map_err(|e| e.kind())
+}
+
+pub fn path_strip_trailing_slash(path: &[u8]) -> (Vec<u8>, bool) {
+    let (q, t) = utils::path_strip_trailing_slash(p(path));
+    (pbytes(q), t)
+}
+
+pub fn to_c_string(path: &[u8]) -> Vec<u8> {
+    use crate::utils::ToCString;
+    p(path).to_c_string().as_bytes().to_vec()
+}
+
+/// Rust's `Path ==` as used by `check_current`.
+pub fn path_eq(a: &[u8], b: &[u8]) -> bool {
+    p(a) == p(b)
+}
+
+/// `root_path.join("." + expected components)` as built by `check_current`.
+pub fn check_current_full_path(root_path: &[u8], expected: &[u8]) -> Vec<u8> {
+    let full: PathBuf = p(root_path).join(
+        std::iter::once(OsStr::from_bytes(b"."))
+            .chain(p(expected).raw_components())
+            .collect::<PathBuf>(),
+    );
+    pbytes(&full)
+}
+
+/// `PathBuf` push/pop as used for `expected_path` (starting from "/").
+pub fn pathbuf_ops(ops: &[Option<Vec<u8>>]) -> (Vec<u8>, Vec<bool>) {
+    let mut pb = PathBuf::from("/");
+    let mut pops = Vec::new();
+    for op in ops {
+        match op {
+            Some(part) => pb.push(p(part)),
+            None => pops.push(pb.pop()),
+        }
+    }
+    (pbytes(&pb), pops)
+}
+
+pub fn path_is_absolute(path: &[u8]) -> bool {
+    p(path).is_absolute()
+}
+
+pub fn error_kind_errno(kind: ErrorKind) -> Option<i32> {
+    kind.errno()
+}
+
+/// Operations on a `SymlinkStack<String>`, for comparison with the model.
+pub enum StackOp {
+    SwapLink {
+        part: Vec<u8>,
+        dir: String,
+        remaining: Vec<u8>,
+        target: Vec<u8>,
+    },
+    PopPart(Vec<u8>),
+    PopTop,
+}
+
+/// Result of each operation: Ok/Err(code) (+ popped state for PopTop).
+pub fn symlink_stack_run(ops: &[StackOp]) -> Vec<String> {
+    use crate::resolvers::opath::SymlinkStackError as E;
+    let mut stack: SymlinkStack<String> = SymlinkStack::new();
+    let code = |r: Result<(), E>| match r {
+        Ok(()) => "ok".to_string(),
+        Err(E::EmptyStack) => "empty".to_string(),
+        Err(E::BrokenStackEmpty { .. }) => "broken-empty".to_string(),
+        Err(E::BrokenStackWrongComponent { .. }) => "broken-wrong".to_string(),
+    };
+    ops.iter()
+        .map(|op| match op {
+            StackOp::SwapLink {
+                part,
+                dir,
+                remaining,
+                target,
+            } => code(stack.swap_link(
+                OsStr::from_bytes(part),
+                (&Rc::new(dir.clone()), PathBuf::from(OsStr::from_bytes(remaining))),
+                PathBuf::from(OsStr::from_bytes(target)),
+            )),
+            StackOp::PopPart(part) => code(stack.pop_part(OsStr::from_bytes(part))),
+            StackOp::PopTop => match stack.pop_top_symlink() {
+                None => "none".to_string(),
+                Some((dir, rem)) => format!(
+                    "some {} {}",
+                    dir,
+                    rem.as_os_str()
+                        .as_bytes()
+                        .iter()
+                        .map(|b| format!("{b:02x}"))
+                        .collect::<String>()
+                ),
+            },
+        })
+        .collect()
+}
+
+/// `proc_subpath` of `utils/fd.rs` for a raw descriptor number.
+pub fn proc_subpath(fd: RawFd) -> Result<String, ErrorKind> {
+    struct Raw(RawFd);
+    impl AsRawFd for Raw {
+        fn as_raw_fd(&self) -> RawFd {
+            self.0
+        }
+    }
+    utils::verif_proc_subpath(Raw(fd)).map_err(|e| e.kind())
+}
+
+#[cfg(feature = "capi")]
+pub mod capi {
+    //! C-boundary helpers that are not exported symbols.
+    use crate::error::{Error, ErrorImpl};
+    use std::io::Error as IOError;
+
+    /// Store an error of the given class in the C error table; returns its id.
+    pub fn store_error(class: u32, errno: i32) -> libc::c_int {
+        let err: Error = match class {
+            0 => ErrorImpl::NotImplemented {
+                feature: "verif".into(),
+            }
+            .into(),
+            1 => ErrorImpl::NotSupported {
+                feature: "verif".into(),
+            }
+            .into(),
+            2 => ErrorImpl::InvalidArgument {
+                name: "verif".into(),
+                description: "verif".into(),
+            }
+            .into(),
+            3 => ErrorImpl::SafetyViolation {
+                description: "verif".into(),
+            }
+            .into(),
+            4 => Error::from("x".parse::<u32>().unwrap_err()),
+            _ => ErrorImpl::OsError {
+                operation: "verif".into(),
+                source: IOError::from_raw_os_error(errno),
+            }
+            .into(),
+        };
+        crate::capi::error::store_error(err)
+    }
+}
